@@ -10,6 +10,7 @@ import (
 	"errors"
 	"net/http"
 	"regexp"
+	"sort"
 	"strings"
 )
 
@@ -78,9 +79,11 @@ func (h *Header) Apply(hh http.Header) {
 	switch h.Action {
 	case Remove:
 		hh.Del(h.Name)
+		delFold(hh, h.Name)
 	case RemoveByPrefix:
 		removeHeadersByPrefix(hh, h.Name)
 	case Empty:
+		delFold(hh, h.Name)
 		hh.Set(h.Name, "")
 	case Add:
 		hh.Add(h.Name, *h.Value)
@@ -95,6 +98,7 @@ func (h *Header) Apply(hh http.Header) {
 		//  and replace canonicalized key with raw name
 
 		canonicalizedName := http.CanonicalHeaderKey(h.Name)
+		mergeFold(hh, canonicalizedName)
 
 		_, ok := hh[canonicalizedName]
 
@@ -105,6 +109,32 @@ func (h *Header) Apply(hh http.Header) {
 	}
 }
 
+// delFold deletes every key equal to name under case folding,
+// header names may have non-canonical spelling after RenameCase.
+func delFold(h http.Header, name string) {
+	for k := range h {
+		if strings.EqualFold(k, name) {
+			delete(h, k)
+		}
+	}
+}
+
+// mergeFold moves the values of every differently spelled key equal to canonicalName
+// under case folding to canonicalName.
+func mergeFold(h http.Header, canonicalName string) {
+	var keys []string
+	for k := range h {
+		if k != canonicalName && strings.EqualFold(k, canonicalName) {
+			keys = append(keys, k)
+		}
+	}
+	sort.Strings(keys)
+	for _, k := range keys {
+		h[canonicalName] = append(h[canonicalName], h[k]...)
+		delete(h, k)
+	}
+}
+
 func removeHeadersByPrefix(h http.Header, prefix string) {
 	for k := range h {
 		if len(k) < len(prefix) {
@@ -112,6 +142,7 @@ func removeHeadersByPrefix(h http.Header, prefix string) {
 		}
 		if strings.EqualFold(k[0:len(prefix)], prefix) {
 			h.Del(k)
+			delete(h, k)
 		}
 	}
 }
